@@ -448,7 +448,12 @@ func handleCreatePermissionRequest(req Request, stunMsg *stun.Message) error {
 	}
 	if addCount > 0 {
 		for _, perm := range perms {
-			alloc.AddPermission(perm)
+			if err := alloc.AddPermission(perm); err != nil {
+				// The allocation ran out, or was deleted, while the request was
+				// on its way through (the permission handler may have taken its
+				// time): it is treated as gone, as a late Refresh is.
+				return fmt.Errorf("%w %v:%v", errNoAllocationFound, req.SrcAddr, req.Conn.LocalAddr())
+			}
 		}
 	}
 
